@@ -440,15 +440,35 @@ def v1_gen_source(rng, st):
     return "\n".join(lines) + "\n"
 
 
-def v1_items_of_source(filename, content):
+class ParserHang(Exception):
+    pass
+
+
+def v1_items_of_source(filename, content, seconds=10):
+    """Items per flow from the real 1.0 colang_parser.  The hand-written parser does not terminate
+    on some inputs (e.g. a lone `define flow x` line, tests/test_cli_migration.py) - that is C13's
+    subject; here such a source is simply not a compiled flow (ParserHang)."""
+    import signal
+
     from nemoguardrails.colang.v1_0.lang.colang_parser import (
         parse_coflows_to_yml_flows,
         parse_snippets_and_imports,
     )
 
-    snippets, _imports = parse_snippets_and_imports(filename, content)
-    r = parse_coflows_to_yml_flows(filename, content, snippets=snippets, include_source_mapping=True)
-    return r["flows"]
+    def _on_alarm(signum, frame):
+        raise _Budget()
+
+    old = signal.signal(signal.SIGALRM, _on_alarm)
+    signal.setitimer(signal.ITIMER_REAL, seconds)
+    try:
+        snippets, _imports = parse_snippets_and_imports(filename, content)
+        r = parse_coflows_to_yml_flows(filename, content, snippets=snippets, include_source_mapping=True)
+        return r["flows"]
+    except _Budget:
+        raise ParserHang(filename)
+    finally:
+        signal.setitimer(signal.ITIMER_REAL, 0)
+        signal.signal(signal.SIGALRM, old)
 
 
 def v1_shipped_files():
@@ -463,6 +483,23 @@ def v1_shipped_files():
         if _is_colang_v2(content):
             continue
         out.append((os.path.relpath(f, C.REPO), content))
+    return out
+
+
+def v1_inline_test_sources():
+    """String constants of tests/**/*.py that look like Colang 1.0 programs."""
+    out = []
+    for f in sorted(glob.glob(os.path.join(C.REPO, "tests", "**", "*.py"), recursive=True)):
+        try:
+            tree = pyast.parse(open(f, encoding="utf-8").read())
+        except Exception:
+            continue
+        k = 0
+        for node in pyast.walk(tree):
+            if isinstance(node, pyast.Constant) and isinstance(node.value, str) and re.search(r"^\s*define (sub)?flow", node.value, re.M) \
+                    and node.value.strip().count("\n") >= 1:
+                out.append((os.path.relpath(f, C.REPO) + f"#{k}", node.value))
+                k += 1
     return out
 
 
@@ -802,6 +839,8 @@ def v2_sig(cfg, prob):
         construct = "when"
     elif "failure_label" in joined or "end_label" in joined or "group_" in joined:
         construct = "group"
+    if kind in ("scope-left-open", "scope-reopened"):
+        kind = "scope-not-closed"      # two symptoms of one defect class: a path that misses the EndScope
     return f"v2:{kind}:{construct}"
 
 
@@ -1131,7 +1170,19 @@ def run(tier, seed, replay=None):
             src_fail += 1
     shipped_v1 = []
     shipped_v1_rejected = 0
+    inline_v1 = inline_v1_rejected = 0
     if not rp:
+        import textwrap
+
+        for rel, content in v1_inline_test_sources():
+            try:
+                flows = v1_items_of_source(rel, textwrap.dedent(content))
+            except Exception:
+                inline_v1_rejected += 1
+                continue
+            inline_v1 += 1
+            for fid, items in flows.items():
+                v1_cases.append(("inline:" + rel + ":" + fid, items))
         for rel, content in v1_shipped_files():
             try:
                 flows = v1_items_of_source(rel, content)
@@ -1150,7 +1201,7 @@ def run(tier, seed, replay=None):
     for origin, items in v1_cases:
         r = v1_real_compile(items)
         if r[0] == "exc":
-            if origin.startswith("shipped") or origin == "gen-src":
+            if origin.startswith(("shipped", "inline")) or origin == "gen-src":
                 out.findings.append(C.Finding("v1:compile-raises", f"parse_flow_elements raised {r[1]} on {origin}",
                                               {"kind": "v1-items", "items": items, "origin": origin}))
             continue
@@ -1177,7 +1228,7 @@ def run(tier, seed, replay=None):
             t_items = v1_coq_items(tree)
         except (Unsupported, ValueError):
             v1_unsupported += 1
-            if origin.startswith("shipped"):
+            if origin.startswith(("shipped", "inline")):
                 out.add_broken("correspondence:C12-v1-loader", f"shipped flow outside the modelled item vocabulary: {origin}")
             continue
         expected = f"(Ok {v1_coq_elems(obs)})" if obs is not None else f"(Err {r[1]})"
@@ -1216,10 +1267,16 @@ def run(tier, seed, replay=None):
     st2 = {k: 0 for k in ("if", "while", "when", "orwhen", "when_else", "match", "await", "start", "activate",
                           "break", "continue", "label", "group_and", "group_or")}
     v2_sources = []   # (origin, src)
-    for x in _corpus("v2-source"):
-        v2_sources.append(("corpus", x["source"]))
+    given_events = {}
+    for i, x in enumerate(_corpus("v2-source")):
+        v2_sources.append((f"corpus:{i}", x["source"]))
+        if x.get("events"):
+            given_events[f"corpus:{i}"] = x["events"]
     if rp and rp.get("kind") == "v2-source":
         v2_sources.append(("replay", rp["source"]))
+        ev = rp.get("events") or (rp.get("confirmed_on_interpreter") or {}).get("events")
+        if ev:
+            given_events["replay"] = ev
     n_shipped_v2 = n_inline = 0
     if not rp:
         for rel, content in v2_shipped_sources():
@@ -1284,23 +1341,44 @@ def run(tier, seed, replay=None):
 
     # findings: a flow the loader compiled that is not closed (python oracle on the real elements)
     reported = set()
-    for (origin, fid), (prob, sig) in sorted(oracle_problems.items(), key=lambda kv: len(kv[0][0]) + len(str(kv[1][0].get("trace", "")))):
+    src_of = dict(v2_sources)
+
+    def _rank(kv):
+        (origin, fid), (prob, sig) = kv
+        cls = 0 if origin.startswith(("corpus", "replay")) else 1 if origin.startswith("shipped") else 2
+        return (cls, len(src_of[origin]))
+
+    for (origin, fid), (prob, sig) in sorted(oracle_problems.items(), key=_rank):
         if sig in reported:
             continue
         reported.add(sig)
-        src = next(s for o, s in v2_sources if o == origin)
+        src = src_of[origin]
         payload = {"kind": "v2-source", "origin": origin, "flow": fid, "problem": prob, "source": src if len(src) < 20000 else src[:20000]}
         out.findings.append(C.Finding(sig, f"flow `{fid}` of {origin} is not closed: {prob['kind']} {prob['detail']} at element {prob['pos']}", payload))
 
     # dynamic probe of the real interpreter on generated programs (+ corpus/replay)
     dyn_jobs = []
     dyn_src = {}
-    cand = [(o, s) for o, s in v2_sources if o.startswith("gen:") or o in ("corpus", "replay")]
-    # programs with a flagged flow first: they should show the predicted runtime error
-    cand.sort(key=lambda os_: 0 if any((os_[0], f) in oracle_problems for f in flows_by_origin.get(os_[0], [])) else 1)
-    for origin, src in cand[: n_dyn if not rp else 5]:
+    cand = [(o, s) for o, s in v2_sources if o.startswith(("gen:", "corpus", "replay"))]
+
+    def _flagged(origin):
+        return any((origin, f) in oracle_problems for f in flows_by_origin.get(origin, []))
+
+    # corpus/replay first, then programs with a flagged flow (they should show the predicted runtime
+    # error; smallest first), then the rest
+    cand.sort(key=lambda os_: (0 if os_[0].startswith(("corpus", "replay")) else 1 if _flagged(os_[0]) else 2,
+                               len(os_[1]) if _flagged(os_[0]) else 0))
+    for origin, src in cand[: max(n_dyn, 8)]:
+        seqs = []
+        if origin in given_events:
+            seqs.append(list(given_events[origin]))
         for k in range(3 if quick else 4):
-            evs = [rng.choice(EVENTS + ["*finish-actions*"]) for _ in range(rng.choice([4, 8, 12]))]
+            seqs.append([rng.choice(EVENTS + ["*finish-actions*"]) for _ in range(rng.choice([4, 8, 12]))])
+        if _flagged(origin):
+            # drive the failure paths: the sub flows that abort, repeatedly
+            for k in range(4):
+                seqs.append([rng.choice(["EvF", "EvG", "EvF", "EvG", "EvA", "EvB", "EvX", "*finish-actions*"]) for _ in range(16)])
+        for k, evs in enumerate(seqs):
             jid = f"{origin}/{k}"
             dyn_jobs.append({"id": jid, "src": src, "events": evs})
             dyn_src[jid] = (origin, src, evs)
@@ -1320,7 +1398,10 @@ def run(tier, seed, replay=None):
             origin, src, evs = dyn_src[jid]
             flagged = [f for f in flows_by_origin.get(origin, []) if (origin, f) in oracle_problems]
             if flagged:
-                dyn_confirmed.setdefault(oracle_problems[(origin, flagged[0])][1], {"source": src, "events": evs, "errors": errs[:3]})
+                for f_ in flagged:
+                    sg = oracle_problems[(origin, f_)][1]
+                    if sg not in dyn_confirmed or len(src) < len(dyn_confirmed[sg]["source"]):
+                        dyn_confirmed[sg] = {"source": src, "events": evs, "errors": errs[:3]}
             else:
                 # the interpreter hit a closedness error on a program every flow of which the checker accepts
                 out.add_broken("correspondence:C12-v2-dynamic",
@@ -1328,9 +1409,11 @@ def run(tier, seed, replay=None):
                 out.findings.append(C.Finding("v2:runtime-closedness-error:unpredicted", f"interpreter raised {errs[0]}",
                                               {"kind": "v2-source", "source": src, "events": evs, "errors": errs[:3]}))
     for f in out.findings:
-        if f.sig in dyn_confirmed and isinstance(f.replay, dict):
-            f.replay["confirmed_on_interpreter"] = dyn_confirmed[f.sig]
-            f.what += f"; real interpreter: {dyn_confirmed[f.sig]['errors'][0]}"
+        # same defect class (construct), whichever of its symptoms the static oracle met first
+        hit = dyn_confirmed.get(f.sig)
+        if hit and isinstance(f.replay, dict):
+            f.replay["confirmed_on_interpreter"] = hit
+            f.what += f"; real interpreter on events {hit['events']}: {hit['errors'][0]}"
 
     out.coverage.update({
         "evaluations": len(terms) + len(off_terms) + len(v2_terms) + dyn_runs + v1_slide_runs,
@@ -1342,6 +1425,7 @@ def run(tier, seed, replay=None):
         "input_distribution": {
             "v1_generated_trees": n_v1_trees, "v1_generated_sources": n_v1_src, "v1_sources_rejected_by_parser": src_fail,
             "v1_shipped_files_compiled": len(shipped_v1), "v1_shipped_files_rejected_by_parser": shipped_v1_rejected,
+            "v1_inline_test_programs_compiled": inline_v1, "v1_inline_test_programs_rejected_by_parser": inline_v1_rejected,
             "v1_flows_compared": len(terms), "v1_flows_offsets_checked": len(off_terms), "v1_results": v1_results,
             "v1_outside_model_vocabulary": v1_unsupported, "v1_constructs": st1,
             "v2_shipped_files": n_shipped_v2, "v2_inline_test_programs": n_inline, "v2_generated_programs": n_v2_gen,
